@@ -413,6 +413,7 @@ Definition classify (s3 : st) (toks : list Token) (line : str) (pfx : str) (star
           else if close then
             let p' := (parens f - 1)%Z in
             let f' := if (p' =? 0)%Z then mkF (quote f) 0%Z (prev_lines f) (last_start f) 0%Z
+                      else if (p' <? spec_count f)%Z then mkF (quote f) p' (prev_lines f) (last_start f) (Z.max p' 0)
                       else mkF (quote f) p' (prev_lines f) (last_start f) (spec_count f) in
             Ok (upd_f s3 (upd_top (fstack s3) f'), toks ++ [emit OP token], Continue epos)
           else if starts_with [colon] token && (parens f - spec_count f =? 1)%Z then
